@@ -33,7 +33,11 @@ type primaryGC struct {
 	reclaimed   int64
 }
 
-type UpdateIndexFunc func([]byte, types.Block) error
+// UpdateIndexFunc re-points the index entry of a key from oldLocation to
+// newLocation. It must do nothing and return false if the index does not refer
+// to oldLocation for that key, because then the record at oldLocation is not
+// the key's current record.
+type UpdateIndexFunc func(indexKey []byte, oldLocation, newLocation types.Block) (bool, error)
 
 func newGC(primary *MultihashPrimary, freeList *freelist.FreeList, interval, timeLimit time.Duration, updateIndex UpdateIndexFunc) *primaryGC {
 	gc := &primaryGC{
@@ -312,28 +316,33 @@ func (gc *primaryGC) reapRecords(fileNum uint32, lowUsePercent int64) (bool, err
 			if err != nil {
 				return false, fmt.Errorf("cannot put new primary record: %w", err)
 			}
-			// Update the index with the new primary location.
-			if err = gc.updateIndex(indexKey, fileOffset); err != nil {
-				log.Errorw("Cannot update index with new record location", "err", err)
-				// Failed to index the moved record, most likely because the
-				// key was not found in the index. The moved record is
-				// unreachable so it must be removed.
+			// Update the index with the new primary location, but only if the
+			// index still refers to the record being moved.
+			offset := absolutePrimaryPos(types.Position(busyAt), fileNum, gc.primary.maxFileSize)
+			blk := types.Block{Size: types.Size(busySize), Offset: types.Position(offset)}
+			moved, err := gc.updateIndex(indexKey, blk, fileOffset)
+			if err != nil || !moved {
+				if err != nil {
+					log.Errorw("Cannot update index with new record location", "err", err)
+				}
+				// The record is not the current record of its key: the key
+				// was updated or removed, and the record's location has been
+				// or will be freed by that operation. The copy is unreachable
+				// so it must be removed.
 				if err = gc.freeList.Put(fileOffset); err != nil {
 					log.Errorw("Cannot put failed index record location into freelist", "err", err)
 				}
 			} else {
 				log.Debugw("Moved record from end of low-use file", "from", fileName, "free", totalFree, "busy", totalBusy)
-			}
-			// Do not truncate file here, because moved record may not be
-			// written yet. Instead put moved record onto freelist and let next
-			// GC cycle process freelist and delete this record. This also
-			// keeps low-use files getting processed each GC cycle.
+				// Do not truncate file here, because moved record may not be
+				// written yet. Instead put moved record onto freelist and let
+				// next GC cycle process freelist and delete this record. This
+				// also keeps low-use files getting processed each GC cycle.
 
-			// Add outdated data in primary storage to freelist
-			offset := absolutePrimaryPos(types.Position(busyAt), fileNum, gc.primary.maxFileSize)
-			blk := types.Block{Size: types.Size(busySize), Offset: types.Position(offset)}
-			if err = gc.freeList.Put(blk); err != nil {
-				return false, fmt.Errorf("cannot put old record location into freelist: %w", err)
+				// Add outdated data in primary storage to freelist
+				if err = gc.freeList.Put(blk); err != nil {
+					return false, fmt.Errorf("cannot put old record location into freelist: %w", err)
+				}
 			}
 
 			busyAt = prevBusyAt
